@@ -201,13 +201,36 @@ func (g *lgEngine) lin(v ssa.Value, d int) linExpr {
 			}
 			return g.lin(x.X, d+1).add(g.lin(x.Y, d+1), -1)
 		case token.MUL:
-			if k, ok := constInt(x.X); ok && !isUnsigned(x.Type()) {
+			// multiplication by a constant (no-overflow assumption as for ADD)
+			if k, ok := constInt(x.X); ok && k >= 0 {
 				z := newLin()
 				return z.add(g.lin(x.Y, d+1), k)
 			}
-			if k, ok := constInt(x.Y); ok && !isUnsigned(x.Type()) {
+			if k, ok := constInt(x.Y); ok && k >= 0 {
 				z := newLin()
 				return z.add(g.lin(x.X, d+1), k)
+			}
+		case token.QUO:
+			// exact division: every coefficient and the constant divisible by k
+			if k, ok := constInt(x.Y); ok && k > 0 {
+				inner := g.lin(x.X, d+1)
+				if inner.ok {
+					exact := inner.c%k == 0
+					for _, cf := range inner.coef {
+						if cf%k != 0 {
+							exact = false
+						}
+					}
+					if exact && len(inner.coef) > 0 {
+						q := newLin()
+						for a, cf := range inner.coef {
+							q.coef[a] = cf / k
+							q.atom[a] = inner.atom[a]
+						}
+						q.c = inner.c / k
+						return q
+					}
+				}
 			}
 		}
 	case *ssa.Call:
@@ -959,7 +982,7 @@ func (g *lgEngine) prove(need linExpr, facts []linExpr) bool {
 		}
 	}
 	cands := []linExpr{need, substituteEqualities(need, facts)}
-	mult := []int64{1, 2, 3, 4, 8, 12, 16}
+	mult := []int64{1, 2, 3, 4, 8, 12, 16, 64}
 	for _, nd := range cands {
 		if provenNonNeg(nd) {
 			return true
